@@ -346,10 +346,23 @@ Preprocess(c) == /\ Guard
                  /\ ret' = [NoRet EXCEPT !.kind = "Pre", !.call = <<"Preprocess", c>>]
                  /\ UNCHANGED <<cfg, sp, db, orig>>
 
+\* problem.reset() (the database is cleared, the ORIGINAL functions are restored) followed by a new
+\* preprocess_functions(c): what a second run on the same problem does.  The originals are the same
+\* objects as before: everything after it is again stated against the constants F / DF (OriginalIntact).
+\* orig restarts: it logs the original calls since the last (re-)preprocessing.
+RepreSet == {cfg, [cfg EXCEPT !.normalize = ~cfg.normalize]}
+Repreprocess(c) == /\ Guard
+                   /\ c \in RepreSet /\ ret.kind # "Re"
+                   /\ cfg' = c /\ db' = <<>>
+                   /\ orig' = [f \in FnSet |-> [k \in Kinds |-> <<>>]]
+                   /\ ret' = [NoRet EXCEPT !.kind = "Re", !.call = <<"Repreprocess", c>>]
+                   /\ UNCHANGED sp
+
 Next == \/ \E f \in FnSet, i \in 1..MaxReq : EvalF(f, i)
         \/ \E f \in FnSet, i \in 1..MaxReq : EvalJ(f, i)
         \/ \E i \in 1..3, g \in BOOLEAN, wj \in BOOLEAN : EvalAll(i, g, wj)
         \/ \E c \in CfgSpace : Preprocess(c)
+        \/ \E c \in CfgSpace : Repreprocess(c)
 Spec == Init /\ [][Next]_vars
 
 Bounded == NCalls <= MaxCalls /\ TLCGet("level") <= MaxLevel
@@ -369,7 +382,7 @@ InCaller(J) == [r \in 1..Len(J) |-> [i \in 1..Dim |-> Div(J[r][i] * CallerScale(
 Inert(i) == cfg.normalize /\ MaskD(D0, i) /\ WidthD(D0, i) = 0
 Recordable(J) == [r \in 1..Len(J) |-> [i \in 1..Dim |-> IF Inert(i) THEN 0 ELSE J[r][i]]]
 
-TypeOK == /\ ret.kind \in {"none", "F", "J", "All", "Pre"}
+TypeOK == /\ ret.kind \in {"none", "F", "J", "All", "Pre", "Re"}
           /\ \A i \in 1..Len(db) : Len(db[i].key) = Dim
 
 Faithful == \A f \in FnSet : ret.outs[f] # <<>> => ret.outs[f] = F(f, EvalPoint(ret.x))
@@ -399,12 +412,18 @@ NoDbNoRecord == ~cfg.useDb => db = <<>>
 
 IsPrefix(s, t) == Len(s) <= Len(t) /\ \A i \in 1..Len(s) : s[i] = t[i]
 Keys(d) == [i \in 1..Len(d) |-> d[i].key]
-KeysAppendOnly == [][IsPrefix(Keys(db), Keys(db'))]_vars
+\* (between two resets of the problem)
+KeysAppendOnly == [][ret'.kind = "Re" \/ IsPrefix(Keys(db), Keys(db'))]_vars
 \* entries only grow: a recorded value / Jacobian is never overwritten
-WriteOnce == [][\A i \in 1..Len(db) : \A f \in FnSet :
+WriteOnce == [][ret'.kind = "Re" \/ \A i \in 1..Len(db) : \A f \in FnSet :
                   /\ (db[i].vals[f] # <<>> => db'[i].vals[f] = db[i].vals[f])
                   /\ (db[i].jacs[f] # <<>> => db'[i].jacs[f] = db[i].jacs[f])]_vars
-ConfigFixed == [][cfg' = cfg /\ sp' = sp]_vars
+\* the configuration only changes by a reset followed by a new preprocessing, which starts from an
+\* empty database
+ConfigFixed == [][sp' = sp /\ (cfg' # cfg => ret'.kind = "Re") /\ (ret'.kind = "Re" => db' = <<>>)]_vars
+\* OriginalIntact: the user's functions are the CONSTANT operators F / DF of this module: no action can
+\* change them.  The driver compares the original function objects (values, Jacobians, coefficients of
+\* the linear ones) with F / DF on the request points after every call.
 \* a request at a recorded point is served from the database: no original call, same result
 ServedFromDb == [][cfg.useDb /\ ret'.kind \in {"F", "J"} =>
     \A f \in FnSet :
